@@ -32,7 +32,7 @@ from .ethernetip import SendUnitDataRequestPacket, SendUnitDataResponsePacket
 from .util import parse_read_reply, request_path, tag_request_path
 
 from ..cip import ClassCode, Services, DataTypes, UINT, UDINT, ULINT
-from ..const import STRUCTURE_READ_REPLY
+from ..const import STRUCTURE_READ_REPLY, SUCCESS
 from ..exceptions import RequestError
 
 
@@ -405,8 +405,8 @@ class MultiServiceResponsePacket(SendUnitDataResponsePacket):
     def _parse_reply(self):
         super()._parse_reply()
         try:
-            if not self.data:
-                return  # refused or empty reply: no member replies, the wrapper's status applies
+            if not self.data or self.command_status != SUCCESS:
+                return  # refused, empty or failed at the encapsulation layer: no member replies, the wrapper's status applies
             num_replies = UINT.decode(self.data)
             offset_data = self.data[2 : 2 + 2 * num_replies]
             offsets = (UINT.decode(offset_data[i : i + 2]) for i in range(0, len(offset_data), 2))
